@@ -21,9 +21,11 @@ package main
 
 import (
 	"bytes"
+	"errors"
 	"fmt"
 	"os"
 	"os/exec"
+	"path/filepath"
 	"sort"
 	"strconv"
 	"strings"
@@ -349,10 +351,17 @@ type genEnv struct {
 	remote map[string]struct{}
 	module map[string]struct{}
 	path   map[string]struct{}
+	look   map[string]struct{} // plugin names the writer may look up as protoc-gen-<name>
 }
 
 func newGenEnv() *genEnv {
-	return &genEnv{remote: map[string]struct{}{}, module: map[string]struct{}{}, path: map[string]struct{}{}}
+	return &genEnv{remote: map[string]struct{}{}, module: map[string]struct{}{}, path: map[string]struct{}{}, look: map[string]struct{}{}}
+}
+
+// lookPathFinds is exec.LookPath as the writer uses it (library parameter of the model).
+func lookPathFinds(binary string) bool {
+	_, err := exec.LookPath(binary)
+	return err == nil || errors.Is(err, exec.ErrDot)
 }
 
 // remoteHostOf mirrors bufconfig.parseRemoteHostName (identity first, then reference).
@@ -405,7 +414,13 @@ func (e *genEnv) node(run *hx.Run) nd.Node {
 			ps = append(ps, s)
 		}
 	}
-	return nd.L(nd.L(rs...), nd.Strs(ms), nd.Strs(ps), nd.Strs(nil))
+	var ls []string
+	for _, s := range sortedKeys(e.look) {
+		if lookPathFinds("protoc-gen-" + s) {
+			ls = append(ls, "protoc-gen-"+s)
+		}
+	}
+	return nd.L(nd.L(rs...), nd.Strs(ms), nd.Strs(ps), nd.Strs(ls))
 }
 
 func (e *genEnv) addV2(d *genDocV2) {
@@ -424,10 +439,18 @@ func (e *genEnv) addV2(d *genDocV2) {
 	}
 }
 
+func (e *genEnv) addV1Beta1(d *gV1Beta1) {
+	for _, p := range d.Plugins {
+		e.look[p.Name] = struct{}{}
+	}
+}
+
 func (e *genEnv) addV1(d *genDocV1) {
 	for _, p := range d.Plugins {
 		e.remote[p.Plugin] = struct{}{}
 		e.remote[p.Name] = struct{}{}
+		e.look[p.Plugin] = struct{}{}
+		e.look[p.Name] = struct{}{}
 	}
 	m := d.Managed
 	for _, px := range []gPrefixV1{m.JavaPackagePrefix, m.CsharpNamespace, m.OptimizeFor, m.GoPackagePrefix, m.ObjcClassPrefix, m.RubyPackage} {
@@ -510,6 +533,52 @@ func canon(f bufconfig.BufGenYAMLFile) nd.Node {
 		is = append(is, canonInput(i))
 	}
 	return nd.L(nd.B(g.CleanPluginOuts()), nd.L(ps...), nd.L(nd.B(enabled), nd.L(ds...), nd.L(os...)), nd.Strs(types), nd.L(is...))
+}
+
+// ---------------------------------------------------------------------------------------------
+// The exact relation the property is checked against (oracle side; implementation values and the
+// Go library only, independent of the Lean model): read(write(c)) == normaliseCanon(c).
+// Every field not touched here must survive a write + read unchanged; the touched ones are the
+// five recorded finding families (classified by diffCauses below).
+
+// protocBuiltinNames: protoc's builtin plugins (hard-coded, NOT read from bufconfig, so that a
+// change of bufconfig.ProtocProxyPluginNames shows).
+var protocBuiltinNames = map[string]bool{"cpp": true, "csharp": true, "java": true, "js": true, "objc": true, "php": true,
+	"python": true, "pyi": true, "ruby": true, "kotlin": true, "rust": true}
+
+func cloneNode(n nd.Node) nd.Node {
+	if !n.IsList {
+		return n
+	}
+	xs := make([]nd.Node, len(n.List))
+	for i, x := range n.List {
+		xs[i] = cloneNode(x)
+	}
+	return nd.L(xs...)
+}
+
+func normaliseCanon(c nd.Node) nd.Node {
+	out := cloneNode(c)
+	for i := range out.List[1].List {
+		p := out.List[1].List[i]
+		p.List[11], p.List[12] = nd.Strs(nil), nd.Strs(nil) // types / exclude_types are never written
+		switch p.List[0].Atom {
+		case "2": // local: v2 has no separate name
+			p.List[1] = nd.A(strings.Join(atoms(p.List[7]), " "))
+		case "4": // local-or-protoc-builtin: resolved by the writer
+			binary := "protoc-gen-" + p.List[1].Atom
+			if lookPathFinds(binary) || !protocBuiltinNames[p.List[1].Atom] {
+				p.List[0], p.List[1], p.List[7] = nd.A("2"), nd.A(binary), nd.Strs([]string{binary})
+			} else {
+				p.List[0] = nd.A("3")
+			}
+		}
+	}
+	out.List[3] = nd.Strs(nil) // v1 types.include
+	for i := range out.List[4].List {
+		out.List[4].List[i].List[14] = nd.Strs(nil) // input exclude_types
+	}
+	return out
 }
 
 // ---------------------------------------------------------------------------------------------
@@ -1604,10 +1673,22 @@ func roundTrip(text []byte) (out genOutcome) {
 
 // runGen is the entry point: n generated documents.
 func runGen(run *hx.Run, r *hx.Rand, n int) {
-	// exec.LookPath is a parameter of the writer (v1 name-only plugins); make it constant.
-	os.Setenv("PATH", "")
-	if _, err := exec.LookPath("protoc-gen-go"); err == nil {
-		panic("PATH not neutralised")
+	// exec.LookPath is a parameter of the writer (v1/v1beta1 name-only plugins): PATH is one
+	// directory holding exactly these executables, so that both outcomes occur for builtin
+	// (java: found, cpp: not) and other (go: found, validate: not) names.
+	binDir := filepath.Join(run.OutDir, "genbin")
+	if err := os.MkdirAll(binDir, 0o755); err != nil {
+		panic(err)
+	}
+	for _, b := range []string{"protoc-gen-go", "protoc-gen-java", "protoc-gen-kotlin", "protoc-gen-es"} {
+		if err := os.WriteFile(filepath.Join(binDir, b), []byte("#!/bin/sh\nexit 1\n"), 0o755); err != nil {
+			panic(err)
+		}
+	}
+	os.Setenv("PATH", binDir)
+	defer os.Setenv("PATH", "")
+	if !lookPathFinds("protoc-gen-go") || lookPathFinds("protoc-gen-cpp") || lookPathFinds("protoc-gen-validate") {
+		panic("PATH not as arranged")
 	}
 	for i := 0; i < n; i++ {
 		if run.Only >= 0 && run.Only != i {
@@ -1625,6 +1706,7 @@ func runGen(run *hx.Run, r *hx.Rand, n int) {
 		case v == 0:
 			version = "v1beta1"
 			d := g.docV1Beta1(invalid)
+			env.addV1Beta1(d)
 			doc, body = d, d.body()
 		case v <= 3:
 			version = "v1"
@@ -1678,6 +1760,12 @@ func runGen(run *hx.Run, r *hx.Rand, n int) {
 				implLine = "ok " + out.c1.String() + " " + writtenNode(out.w1).String() + " reread-err"
 			default:
 				third := "same"
+				// the exact relation: what was re-read is the normal form of what was read
+				fourth := "norm-agree"
+				if want := normaliseCanon(out.c1); want.String() != out.c2.String() {
+					fourth = "norm-DISAGREE"
+					fail("gen-reread-not-normal-form", "read(write(c)) differs from normalise(c): want "+show(want)+"\ngot "+show(out.c2)+"\nwritten:\n"+string(out.w1))
+				}
 				if out.c1.String() != out.c2.String() {
 					third = out.c2.String()
 					causes, what := diffCauses(out.c1, out.c2)
@@ -1693,7 +1781,7 @@ func runGen(run *hx.Run, r *hx.Rand, n int) {
 				} else if !bytes.Equal(out.w1, out.w2) {
 					fail("gen-write-not-idempotent", "first write:\n"+string(out.w1)+"\nsecond write:\n"+string(out.w2))
 				}
-				implLine = "ok " + out.c1.String() + " " + writtenNode(out.w1).String() + " " + third
+				implLine = "ok " + out.c1.String() + " " + writtenNode(out.w1).String() + " " + third + " " + fourth
 			}
 		}
 		run.Case(inputLine, implLine, out.readErr == nil)
